@@ -38,7 +38,8 @@ func ruleC01(c *Ctx, r *Report) {
 	sort.Strings(zn)
 	r.Analysed["zone_functions"] = zn
 
-	c01Dispatch(c, r, p, []string{"query", "filter", "update", "updates", "deletes", "q", "u", "documents", "pipeline"}, "C01-R1")
+	c01Dispatch(c, r, p, []string{"query", "filter", "update", "updates", "deletes", "q", "u", "documents", "pipeline", "ops", "arrayFilters"}, "C01-R1")
+	c01Explain(c, r, p, "C01-R1")
 	c01Sinks(c, r, p)
 	c01Loops(c, r, p)
 	tablePolicyRule(c, r, "C01-R4")
@@ -78,7 +79,7 @@ func c01Dispatch(c *Ctx, r *Report, p *Prov, zoneKeys []string, rule string) {
 		return
 	}
 	r.Analysed["command_walker"] = cmdFn.Name()
-	r.Floor(rule, 3+len(zoneKeys)+1, "3 dispatch sites + zone keys + gate")
+	r.Floor(rule, 4+len(zoneKeys)+1, "4 dispatch sites + zone keys + gate")
 	// dispatch sites
 	found := map[string]*ssa.Call{}
 	allInstrs(p.Root, func(i ssa.Instruction) {
@@ -93,7 +94,7 @@ func c01Dispatch(c *Ctx, r *Report, p *Prov, zoneKeys []string, rule string) {
 		}
 	})
 	gateChecked := false
-	for _, k := range []string{"originatingCommand", "cmd", "command"} {
+	for _, k := range []string{"originatingCommand", "cmd", "command", "commandArgs"} {
 		call := found[k]
 		construct := fmt.Sprintf("%s:dispatch(%s)", p.Root.Name(), k)
 		if call == nil {
@@ -180,6 +181,36 @@ func c01Dispatch(c *Ctx, r *Report, p *Prov, zoneKeys []string, rule string) {
 				fmt.Sprintf("zone key %s: sourceIsSameKey=%v extraConditions=%v", k, zs.srcOK, zs.extra))
 		}
 	}
+}
+
+// c01Explain: a command wrapped in explain ({explain: {find: ..., filter: ...}}) carries the
+// same query-bearing members one level down: the command walker must walk cmd[explain]
+// with itself.
+func c01Explain(c *Ctx, r *Report, p *Prov, rule string) {
+	cmdFn := p.cmdWalker()
+	if cmdFn == nil {
+		return
+	}
+	var site *ssa.Call
+	for _, call := range callsIn(cmdFn, func(k string, cc *ssa.Call) bool { return cc.Call.StaticCallee() == cmdFn }) {
+		if rv, kv, ok := getKeyValueOf(call.Call.Args[0]); ok && peel(rv) == ssa.Value(cmdFn.Params[0]) {
+			if s, isC := constString(kv); isC && s == "explain" {
+				site = call
+			}
+		}
+	}
+	construct := cmdFn.Name() + ":zone(explain)"
+	if site == nil {
+		r.Bad(rule, construct, c.Pos(cmdFn.Pos()), "a command wrapped in explain is not walked: the command walker never applies itself to cmd[explain], so every literal of an explained find / aggregate / update is emitted unredacted")
+		return
+	}
+	var bad []string
+	for _, a := range p.atomsAt(site.Block()) {
+		if !allowedDispatchAtoms[a.Kind] {
+			bad = append(bad, a.String())
+		}
+	}
+	r.Check(len(bad) == 0, rule, construct, c.InstrPos(site), "cmd[explain] is walked by the command walker itself, under lookup/type guards only", fmt.Sprintf("the explain wrapper is walked only under %v", bad))
 }
 
 // zoneSet: one rewrite `Set(cmd, K, walker(Get(cmd, K)))` of the command walker, found
@@ -345,6 +376,10 @@ var zoneForms = map[string][]string{
 	"documents": {"array"},
 	"pipeline":  {"array"},
 	"sort":      {"doc"},
+	// bulkWrite (server 8.0): one entry per operation holding document / filter / updateMods
+	"ops": {"array"},
+	// findAndModify / update: filters for the positional-filtered operator
+	"arrayFilters": {"array"},
 }
 
 func keysOf(m map[string]bool) []string {
